@@ -1,1 +1,370 @@
-// verification harness (compiled into ntp-proto/src/nts/messages.rs under cfg(all(test, pendulum_project_ntpd_rs_verif)))
+// Harness for spec/KeRecords.tla (C30): concretises the record / message classes enumerated by TLC into byte
+// streams and runs the real async parsers (NtsRecord::parse, Request::parse, KeyExchangeResponse::parse) on them,
+// fed by a byte-counting AsyncRead that serves the modelled prefix in seeded chunk sizes (with spurious Pending)
+// and then either ends or goes on for ever.  Observed: verdict class, bytes consumed, termination, panics, and for
+// everything accepted the round trip  parse(serialize(v)) == v  and  serialize(parse(serialize(v))) == serialize(v).
+// Compiled into ntp-proto/src/nts/messages.rs under cfg(all(test, pendulum_project_ntpd_rs_verif)).
+#![allow(clippy::all, dead_code)]
+
+use super::*;
+use crate::nts::record::NtsRecord;
+use serde_json::{Value, json};
+use std::future::Future;
+use std::pin::{Pin, pin};
+use std::task::{Context, Poll, Waker};
+use tokio::io::ReadBuf;
+
+#[path = "/verif/harness/common/util.rs"]
+mod util;
+use util::{Rng, b, i, s};
+
+const JUNK: [u8; 8] = [0x41, 0x23, 0x00, 0x04, 0xde, 0xad, 0xbe, 0xef]; // ignorable (non-critical unknown) record
+const POLL_BUDGET: usize = 2_000_000;
+
+// ---------------------------------------------------------------------------------------------
+// concretisation of record classes
+// ---------------------------------------------------------------------------------------------
+fn wire_type(t: i64, crit: bool) -> u16 {
+    let base: u16 = if t == 99 { 0x4123 } else { t as u16 };
+    base | if crit { 0x8000 } else { 0 }
+}
+
+/// (declared length, bytes actually present)
+fn body(t: i64, cls: &str) -> (usize, Vec<u8>) {
+    let text = matches!(t, 6 | 13 | 14);
+    let exact: Vec<u8> = match t {
+        0 | 8 => vec![],
+        1 => vec![0, 0],
+        2 => vec![0, 1],
+        3 => vec![0, 7],
+        4 => vec![0, 15],
+        5 => (0..16).map(|x| 0xc0 + x as u8).collect(),
+        6 => b"a.b".to_vec(),
+        7 => vec![0x10, 0x1b],
+        9 => vec![0x80, 1],
+        10 => vec![0, 15, 0, 32],
+        12 => (0u8..64).collect(),
+        13 => b"x.y".to_vec(),
+        14 => b"tok".to_vec(),
+        _ => vec![1, 2, 3],
+    };
+    match cls {
+        "empty" => (0, vec![]),
+        "exact" => (exact.len(), exact),
+        "long" => {
+            let mut v = exact;
+            match t {
+                1 | 9 => v.extend_from_slice(&[0x80, 1]),
+                4 => v.extend_from_slice(&[0, 17]),
+                10 => v.extend_from_slice(&[0, 17, 0, 64]),
+                0 | 8 => v.extend_from_slice(&[9, 9, 9, 9]),
+                _ if text => v.extend_from_slice(b"cd"),
+                _ => v.extend_from_slice(&[0xee, 0xef]),
+            }
+            (v.len(), v)
+        }
+        "odd" => (3, if text { b"abc".to_vec() } else { vec![0, 0, 0] }),
+        "short" => (4, vec![0, 0]),
+        "big" => (5000, vec![b'a'; 5000]),
+        "badutf8" => (3, vec![0xff, 0xfe, 0x41]),
+        x => panic!("unknown body class {x}"),
+    }
+}
+
+fn record_bytes(r: &Value, out: &mut Vec<u8>) -> usize {
+    let (declared, present) = body(i(r, "t"), &s(r, "cls"));
+    out.extend_from_slice(&wire_type(i(r, "t"), b(r, "crit")).to_be_bytes());
+    out.extend_from_slice(&(declared as u16).to_be_bytes());
+    out.extend_from_slice(&present);
+    declared
+}
+
+/// (prefix bytes, endless afterwards?)
+fn stream_of(case: &Value) -> (Vec<u8>, bool) {
+    let mut recs = vec![];
+    for r in case["recs"].as_array().unwrap() {
+        record_bytes(r, &mut recs);
+    }
+    let tail = s(case, "tail");
+    let eom = [0x80u8, 0, 0, 0];
+    let pad = |p: usize| -> Vec<u8> {
+        assert!(p == 0 || p >= 4, "cannot pad {p} bytes");
+        let mut v = vec![];
+        if p >= 4 {
+            v.extend_from_slice(&0x4123u16.to_be_bytes());
+            v.extend_from_slice(&((p - 4) as u16).to_be_bytes());
+            v.extend(std::iter::repeat(0x5a).take(p - 4));
+        }
+        v
+    };
+    match tail.as_str() {
+        "eom" => {
+            recs.extend_from_slice(&eom);
+            (recs, true)
+        }
+        "eof" => (recs, false),
+        "endless" => (recs, true),
+        "fill" => {
+            let mut v = pad(4096 - recs.len() - 4);
+            v.extend_from_slice(&recs);
+            v.extend_from_slice(&eom);
+            assert_eq!(v.len(), 4096);
+            (v, true)
+        }
+        "straddle" => {
+            let mut v = pad(4094 - recs.len());
+            v.extend_from_slice(&recs);
+            v.extend_from_slice(&eom);
+            assert_eq!(v.len(), 4098);
+            (v, true)
+        }
+        x => panic!("unknown tail {x}"),
+    }
+}
+
+// ---------------------------------------------------------------------------------------------
+// byte-counting reader
+// ---------------------------------------------------------------------------------------------
+struct Feed {
+    prefix: Vec<u8>,
+    endless: bool,
+    served: usize,
+    rng: Rng,
+    max_chunk: usize,
+    pended: bool,
+}
+
+impl Feed {
+    fn new(prefix: &[u8], endless: bool, seed: u64) -> Feed {
+        let mut rng = Rng::new(seed);
+        let max_chunk = *rng.pick(&[1usize, 2, 3, 7, 64, 600, 1 << 20]);
+        Feed { prefix: prefix.to_vec(), endless, served: 0, rng, max_chunk, pended: false }
+    }
+}
+
+impl AsyncRead for Feed {
+    fn poll_read(self: Pin<&mut Self>, cx: &mut Context<'_>, buf: &mut ReadBuf<'_>) -> Poll<std::io::Result<()>> {
+        let this = self.get_mut();
+        if !this.pended && this.rng.chance(1, 9) {
+            this.pended = true;
+            cx.waker().wake_by_ref();
+            return Poll::Pending;
+        }
+        this.pended = false;
+        let chunk = 1 + this.rng.below(this.max_chunk as u64) as usize;
+        let want = buf.remaining().min(chunk);
+        for _ in 0..want {
+            let at = this.served;
+            let byte = if at < this.prefix.len() {
+                this.prefix[at]
+            } else if this.endless {
+                JUNK[(at - this.prefix.len()) % JUNK.len()]
+            } else {
+                break;
+            };
+            buf.put_slice(&[byte]);
+            this.served += 1;
+        }
+        Poll::Ready(Ok(()))
+    }
+}
+
+/// drives a future to completion without a runtime; None = did not terminate within the poll budget
+fn drive<F: Future>(f: F) -> Option<F::Output> {
+    let mut f = pin!(f);
+    let mut cx = Context::from_waker(Waker::noop());
+    for _ in 0..POLL_BUDGET {
+        if let Poll::Ready(r) = f.as_mut().poll(&mut cx) {
+            return Some(r);
+        }
+    }
+    None
+}
+
+fn ser<F: Future<Output = Result<(), std::io::Error>>>(f: F) -> Option<()> {
+    match drive(f) {
+        Some(Ok(())) => Some(()),
+        _ => None,
+    }
+}
+
+fn errname(e: &NtsError) -> String {
+    match e {
+        NtsError::IO(_) => "IO".into(),
+        NtsError::Tls(_) => "Tls".into(),
+        NtsError::Dns(_) => "Dns".into(),
+        NtsError::UnrecognizedCriticalRecord => "UnrecognizedCriticalRecord".into(),
+        NtsError::Invalid => "Invalid".into(),
+        NtsError::NoCookie => "NoCookie".into(),
+        NtsError::NoOverlappingProtocol => "NoOverlappingProtocol".into(),
+        NtsError::NoOverlappingAlgorithm => "NoOverlappingAlgorithm".into(),
+        NtsError::UnknownWarning(_) => "UnknownWarning".into(),
+        NtsError::Error(_) => "Error".into(),
+        NtsError::AeadNotSupported(_) => "AeadNotSupported".into(),
+        NtsError::IncorrectSizedKey => "IncorrectSizedKey".into(),
+        NtsError::NotPermitted => "NotPermitted".into(),
+    }
+}
+
+// structural views (Request / KeyExchangeResponse have no PartialEq)
+fn view_request(r: &Request<'_>) -> Value {
+    match r {
+        Request::KeyExchange { algorithms, protocols, denied_servers } => json!({
+            "kind": "KeyExchange",
+            "algorithms": algorithms.iter().map(|a| u16::from(*a)).collect::<Vec<_>>(),
+            "protocols": protocols.iter().map(|p| u16::from(*p)).collect::<Vec<_>>(),
+            "denied": denied_servers.iter().map(|d| d.to_string()).collect::<Vec<_>>(),
+        }),
+        Request::FixedKey { authentication, c2s_key, s2c_key, algorithm, protocol, keep_alive } => json!({
+            "kind": "FixedKey", "authentication": authentication.to_string(),
+            "c2s": c2s_key.key_bytes(), "s2c": s2c_key.key_bytes(),
+            "algorithm": u16::from(*algorithm), "protocol": u16::from(*protocol), "keep_alive": keep_alive,
+        }),
+        Request::Support { authentication, wants_protocols, wants_algorithms, keep_alive } => json!({
+            "kind": "Support", "authentication": authentication.to_string(),
+            "wants_protocols": wants_protocols, "wants_algorithms": wants_algorithms, "keep_alive": keep_alive,
+        }),
+    }
+}
+
+fn view_response(r: &KeyExchangeResponse<'_>) -> Value {
+    json!({
+        "protocol": u16::from(r.protocol), "algorithm": u16::from(r.algorithm),
+        "cookies": r.cookies.iter().map(|c| c.to_vec()).collect::<Vec<_>>(),
+        "server": r.server.as_ref().map(|x| x.to_string()), "port": r.port, "keep_alive": r.keep_alive,
+    })
+}
+
+fn fnv(bytes: &[u8]) -> String {
+    let mut h: u64 = 0xcbf29ce484222325;
+    for x in bytes {
+        h ^= *x as u64;
+        h = h.wrapping_mul(0x100000001b3);
+    }
+    format!("{h:016x}")
+}
+
+struct Obs {
+    verdict: String,
+    consumed: usize,
+    terminated: bool,
+    roundtrip: bool,
+    digest: Option<String>,
+}
+
+fn run_record(prefix: &[u8], endless: bool, seed: u64) -> Obs {
+    let mut feed = Feed::new(prefix, endless, seed);
+    let r = drive(NtsRecord::parse(&mut feed));
+    let consumed = feed.served;
+    match r {
+        None => Obs { verdict: "nonterminating".into(), consumed, terminated: false, roundtrip: true, digest: None },
+        Some(Err(_)) => Obs { verdict: "err".into(), consumed, terminated: true, roundtrip: true, digest: None },
+        Some(Ok(v)) => {
+            let mut b1 = vec![];
+            let mut ok = ser(v.serialize(&mut b1)).is_some();
+            let mut b2 = vec![];
+            if ok {
+                match drive(NtsRecord::parse(&b1[..])) {
+                    Some(Ok(v2)) => {
+                        ok &= v2 == v;
+                        ok &= ser(v2.serialize(&mut b2)).is_some() && b1 == b2;
+                    }
+                    _ => ok = false,
+                }
+            }
+            Obs { verdict: "ok".into(), consumed, terminated: true, roundtrip: ok, digest: Some(fnv(&b1)) }
+        }
+    }
+}
+
+fn run_request(prefix: &[u8], endless: bool, seed: u64) -> Obs {
+    let mut feed = Feed::new(prefix, endless, seed);
+    let r = drive(Request::parse(&mut feed));
+    let consumed = feed.served;
+    match r {
+        None => Obs { verdict: "nonterminating".into(), consumed, terminated: false, roundtrip: true, digest: None },
+        Some(Err(e)) => Obs { verdict: format!("err:{}", errname(&e)), consumed, terminated: true, roundtrip: true, digest: None },
+        Some(Ok(v)) => {
+            let view = view_request(&v);
+            let verdict = format!("ok:{}", view["kind"].as_str().unwrap());
+            let mut b1 = vec![];
+            let mut ok = ser(v.serialize(&mut b1)).is_some();
+            let mut b2 = vec![];
+            if ok {
+                match drive(Request::parse(&b1[..])) {
+                    Some(Ok(v2)) => {
+                        ok &= view_request(&v2) == view;
+                        ok &= ser(v2.serialize(&mut b2)).is_some() && b1 == b2;
+                    }
+                    _ => ok = false,
+                }
+            }
+            Obs { verdict, consumed, terminated: true, roundtrip: ok, digest: Some(fnv(&b1)) }
+        }
+    }
+}
+
+fn run_response(prefix: &[u8], endless: bool, seed: u64) -> Obs {
+    let mut feed = Feed::new(prefix, endless, seed);
+    let r = drive(KeyExchangeResponse::parse(&mut feed));
+    let consumed = feed.served;
+    match r {
+        None => Obs { verdict: "nonterminating".into(), consumed, terminated: false, roundtrip: true, digest: None },
+        Some(Err(e)) => Obs { verdict: format!("err:{}", errname(&e)), consumed, terminated: true, roundtrip: true, digest: None },
+        Some(Ok(v)) => {
+            let view = view_response(&v);
+            let mut b1 = vec![];
+            let mut ok = ser(v.serialize(&mut b1)).is_some();
+            let mut b2 = vec![];
+            if ok {
+                match drive(KeyExchangeResponse::parse(&b1[..])) {
+                    Some(Ok(v2)) => {
+                        ok &= view_response(&v2) == view;
+                        ok &= ser(v2.serialize(&mut b2)).is_some() && b1 == b2;
+                    }
+                    _ => ok = false,
+                }
+            }
+            Obs { verdict: "ok".into(), consumed, terminated: true, roundtrip: ok, digest: Some(fnv(&b1)) }
+        }
+    }
+}
+
+fn put(o: &mut Value, name: &str, r: Result<Obs, String>, bound: usize) {
+    match r {
+        Ok(x) => {
+            o[name] = json!({"verdict": x.verdict, "consumed": x.consumed, "terminates": x.terminated,
+                             "bounded": x.consumed <= bound, "roundtrip": x.roundtrip, "panic": false, "digest": x.digest});
+        }
+        Err(msg) => {
+            o[name] = json!({"verdict": "panic", "consumed": 0, "terminates": true, "bounded": true, "roundtrip": true,
+                             "panic": true, "panic_msg": msg, "digest": Value::Null});
+        }
+    }
+}
+
+#[test]
+fn verif_nts_messages() {
+    let job = util::job();
+    assert_eq!(job["mode"], "c30");
+    let seed = job["seed"].as_u64().unwrap_or(1);
+    let cases = util::read_ndjson(job["input"].as_str().unwrap());
+    let mut out = util::NdjsonOut::create(job["output"].as_str().unwrap());
+    for c in &cases {
+        let id = c["id"].as_u64().unwrap();
+        let cs = seed.wrapping_mul(1_000_003).wrapping_add(id);
+        let mut o = json!({"id": id});
+        if s(c, "f") == "rec" {
+            let mut prefix = vec![];
+            let declared = record_bytes(&c["recs"][0], &mut prefix);
+            let endless = s(c, "tail") == "endless";
+            put(&mut o, "rec", util::catch(|| run_record(&prefix, endless, cs)), 4 + declared);
+        } else {
+            let (prefix, endless) = stream_of(c);
+            put(&mut o, "req", util::catch(|| run_request(&prefix, endless, cs)), 4096);
+            put(&mut o, "resp", util::catch(|| run_response(&prefix, endless, cs ^ 0x5555)), 4096);
+        }
+        out.put(&o);
+    }
+    out.finish();
+}
